@@ -34,6 +34,24 @@ CLAIMED = {
             'CPython hash constants are the documented ones (both 64- and 32-bit configurations are '
             'analysed); only the Python-3 branch of the kernels is analysed.',
             'DESIGN.md section 2, Engine G'),
+    'C33': ('D-cache-discipline',
+            'static analysis: discovery of all mutated containers + class-specific data-flow rules '
+            '(control dependence of cache hits on a precision gate, key contents, store order, '
+            'typestate of the matrix LU cache, taint of context values into shared storage)',
+            'Every memo table in the package is found on each run and must be classified; for each '
+            'class the rule that makes stale reuse impossible is checked on the source: hits are '
+            'control-dependent on stored-precision >= requested (and shifted by exactly the '
+            'difference), or the precision is in the key, or the table is exact / a pure function '
+            'of its key; constant_memo stores value before tag; every mutator of a matrix drops its '
+            'cached LU and the LU cache carries a precision tag; nothing computed through a context '
+            'is stored in containers shared between contexts; memoize keys include keyword values.  '
+            'This decides the "never reused at lower accuracy / after inputs changed / across '
+            'contexts / after an aborted computation" clauses for all histories; rounding-level '
+            'differences are not decided.',
+            'Trusts the per-container classification in sa/tables.py (reasoned rows; unclassified '
+            'containers fail the run).  Crash model: exceptions raised by computations; an interrupt '
+            'between two adjacent simple stores is outside it.',
+            'DESIGN.md section 2, Engine D'),
     'C16': ('F-order-abs',
             'static analysis: abstract interpretation of the predicates\' AST over the finite domain '
             'of endpoint orderings (exhaustive), plus dispatch-table rules',
